@@ -48,7 +48,48 @@ impl Validate for ProbeValidator {
     }
 }
 
+/// the same probe under a payload encoding with a suffix ("v4x.local."): the suffix is authenticated
+pub struct ProbeX(pub Vec<u8>);
+impl Payload for ProbeX {
+    const SUFFIX: &'static str = "x";
+    fn encode(self, mut writer: impl WriteBytes) -> Result<(), Box<dyn Error + Send + Sync>> {
+        writer.write(&self.0);
+        Ok(())
+    }
+    fn decode(payload: &[u8]) -> Result<Self, Box<dyn Error + Send + Sync>> {
+        EVENTS.with(|e| e.borrow_mut().push(("decode", payload.to_vec())));
+        if DECODE_OK.with(|d| d.get()) { Ok(ProbeX(payload.to_vec())) } else { Err("scripted decode failure".into()) }
+    }
+}
+pub struct ProbeXValidator;
+impl Validate for ProbeXValidator {
+    type Claims = ProbeX;
+    fn validate(&self, claims: &ProbeX) -> Result<(), PasetoError> {
+        EVENTS.with(|e| e.borrow_mut().push(("validate", claims.0.clone())));
+        Ok(())
+    }
+}
+thread_local! {
+    static USE_X: std::cell::Cell<bool> = const { std::cell::Cell::new(false) };
+}
+
 fn unseal_probe<B: Backend>(kp: &KeyPair<B>, token: &str, aad: &[u8]) -> Result<Vec<u8>, PasetoError> {
+    if USE_X.with(|x| x.get()) {
+        return match kp {
+            KeyPair::Local(k) => {
+                let t: EncryptedToken<B, ProbeX, Vec<u8>> = token.parse()?;
+                t.decrypt_with_aad(k, aad, &ProbeXValidator).map(|u| u.claims.0)
+            }
+            KeyPair::Public(_, pk) => {
+                let t: SignedToken<B, ProbeX, Vec<u8>> = token.parse()?;
+                t.verify_with_aad(pk, aad, &ProbeXValidator).map(|u| u.claims.0)
+            }
+        };
+    }
+    unseal_probe_plain::<B>(kp, token, aad)
+}
+
+fn unseal_probe_plain<B: Backend>(kp: &KeyPair<B>, token: &str, aad: &[u8]) -> Result<Vec<u8>, PasetoError> {
     match kp {
         KeyPair::Local(k) => {
             let t: EncryptedToken<B, Probe, Vec<u8>> = token.parse()?;
@@ -201,6 +242,30 @@ fn backend<B: Backend>(opts: &Opts, rep: &mut Report) {
                             probe_case::<B>(rep, &k2, "one-bit-key-after-right-key", &tok, aad);
                         }
                     }
+                    // the header names the payload encoding: a token relabelled to / from a suffixed encoding
+                    {
+                        let (_, body, _) = split_token(&tok);
+                        USE_X.with(|x| x.set(true));
+                        // positive control for the suffixed type
+                        if let Ok(tx) = kp.seal_x(None, &msg, footer, aad) {
+                            DECODE_OK.with(|d| d.set(true));
+                            take_events();
+                            let ok = matches!(guard(|| unseal_probe::<B>(&kp, &tx, aad)), Ok(Ok(m)) if m == msg);
+                            let ev = take_events();
+                            if ok && ev.len() == 2 {
+                                rep.count(&format!("{}.{}.positive-controls-suffixed", B::NAME, p.name()));
+                            } else {
+                                rep.violation(&format!("C12|{}|{}|positive-control:suffixed", B::NAME, p.name()), json!({"token": tx, "events": ev.len()}));
+                            }
+                            // ... and its bytes under the plain header, opened as the plain type
+                            USE_X.with(|x| x.set(false));
+                            let (_, bx, _) = split_token(&tx);
+                            probe_case::<B>(rep, &kp, "header-relabel-from-suffixed", &join_token(&kp.header(), &bx, footer), aad);
+                            USE_X.with(|x| x.set(true));
+                        }
+                        probe_case::<B>(rep, &kp, "header-relabel-to-suffixed", &join_token(&kp.header_x(), &body, footer), aad);
+                        USE_X.with(|x| x.set(false));
+                    }
                     // too short: header only, and every length below the minimum
                     let (hdr, body, _) = split_token(&tok);
                     for l in [0usize, 1, 15, 16, 31, 32, 47, 63, 64, 79, 95, 96, 255].iter().filter(|l| **l < body.len()) {
@@ -221,7 +286,7 @@ pub fn run(opts: &Opts) {
     for_backends!(opts, backend, opts, &mut rep);
     rep.set(
         "rule",
-        json!("for sealed tokens on all 12 backend x purpose pairs every corruption class of C02 (every single-bit flip of body/footer/assertion, footer/assertion add/remove/replace, boundary shifts, every truncation, extensions), wrong key, a one-bit-different key per key byte tried right after the right key unsealed the same token, wrong assertion and too-short bodies is unsealed twice through a recording Payload type (decoder scripted to succeed, then to fail) and a recording validator; the probes must record nothing, the error must not be PayloadError and must be the same in both runs; positive control: the authentic token yields exactly [decode(claims), validate(claims)]; distinct = distinct (token, assertion, key)"),
+        json!("for sealed tokens on all 12 backend x purpose pairs every corruption class of C02 (every single-bit flip of body/footer/assertion, footer/assertion add/remove/replace, boundary shifts, every truncation, extensions), wrong key, a one-bit-different key per key byte tried right after the right key unsealed the same token, wrong assertion, headers relabelled between a plain and a suffixed payload encoding (both directions, recording probe types for both) and too-short bodies is unsealed twice through a recording Payload type (decoder scripted to succeed, then to fail) and a recording validator; the probes must record nothing, the error must not be PayloadError and must be the same in both runs; positive control: the authentic token yields exactly [decode(claims), validate(claims)]; distinct = distinct (token, assertion, key)"),
     );
     rep.set("not_monitored", json!(["'the unverified footer is reachable only through the accessor named unverified' is a statement about the API surface, not about executions"]));
     rep.finish(opts);
